@@ -208,7 +208,7 @@ def analyze(ctx, want):
     # shift_ids offsets every state id
     so = F.fn(r"internal::nfa::NfaState::offset$")
     ctx.analysed_fn(so)
-    w = {"%s.%s" % (a.split("::")[-1], f_) for (a, f_) in F.direct_writes(so)}
+    w = {"%s.%s" % (a.split("::")[-1], f_) for fn_ in [so] + list(F.closures_of(so)) for (a, f_) in F.direct_writes(fn_)}   # (closures written in the function included)
     need = {"NfaState.state", "NfaTransition.target_state", "EpsilonTransition.target_state"}
     ob("C02.b", "NfaState::offset-shifts-every-id-field", need <= w, "fields written by NfaState::offset: %s (every StateID of a state: its own id, transition targets, epsilon targets)" % sorted(w), so.loc())
     # every StateID-typed field of the three types is covered
@@ -224,7 +224,7 @@ def analyze(ctx, want):
     adds = set()
     for p in paths:
         for e in p.events:
-            if e[0] == "write" and e[2][0] != "local":
+            if e[0] == "write" and e[2][0] != "local" and not (e[2][0] == "sym" and str(e[2][1]).startswith("__")):
                 v = strip_ids(e[4])
                 fp = re.sub(r"\.0$", "", field_path(e[3]))
                 # new value = StateID::new(old id + offset)
